@@ -16,6 +16,6 @@ case "$CF" in
  *) /verif/tools_rebuild_ext.sh "$CF" >/dev/null ;;
 esac
 echo "== demo on mutated tree"; /venv/bin/python "$D/demo.py" >/dev/null 2>&1; echo "demo rc(mut)=$?"
-cd /verif && ./check "$P" "$@" 2>/dev/null | grep -E "VIOLATION|SUMMARY|HARNESS|INCONCLUSIVE"
+cd /verif && ./check "$P" "$@" 2>/dev/null | grep -E -A${VERIF_CTX:-0} "VIOLATION|SUMMARY|HARNESS|INCONCLUSIVE"
 cd /repo && git checkout -- . ; cp -p "$BK"/*.c* "$(dirname $CF)/" 2>/dev/null; cp -p "$BK"/*.so "$(dirname $SO)/"; rm -rf "$BK"; rm -f "$CF.orig" "$CF.rej"
 git status --short | head -3
